@@ -98,6 +98,10 @@ def configs(tier):
     for name, procs, jobs, pk in (
             ('job-limit/1proc', 1, [ap_h1, ap], dict(base, enable_timeouts=True)),
             ('pool-limit/1proc', 1, [ap, ap], dict(base, timeout=2.0)),
+            # no pool default: one job with its own limit next to one
+            # without any, both running
+            ('job-limit+unlimited/2proc', 2, [ap_h1, ap],
+             dict(base, enable_timeouts=True)),
             ('job-beats-pool', 2, [ap_h1, ap_h3, ap], dict(base, timeout=2.0)),
             ('soft+hard', 2, [ap_sh, ap], dict(base, enable_timeouts=True)),
             ('callback-pumps-results', 2,
